@@ -55,45 +55,49 @@ func (checker *TimestampChecker) IsUpToDate(t *ast.Task) (bool, error) {
 	// If the file exists, add the file path to the generates.
 	// If the generate file is old, the task will be executed.
 	_, err = os.Stat(timestampFile)
-	if err == nil {
+	markerExists := err == nil
+	if markerExists {
 		generates = append(generates, timestampFile)
-	} else {
-		// Create the timestamp file for the next execution when the file does not exist.
-		if !checker.dry {
+	}
+
+	// The marker is created, or moved to the current time, only when the task
+	// is going to run: a check that ends in "up to date" must neither move it
+	// past sources that were edited since the last run nor create it.
+	touchMarker := func() error {
+		if checker.dry {
+			return nil
+		}
+		if !markerExists {
 			if err := os.MkdirAll(filepath.Dir(timestampFile), 0o755); err != nil {
-				return false, err
+				return err
 			}
 			f, err := os.Create(timestampFile)
 			if err != nil {
-				return false, err
+				return err
 			}
 			f.Close()
 		}
+		now := time.Now()
+		return os.Chtimes(timestampFile, now, now)
 	}
-
-	taskTime := time.Now()
 
 	// Compare the time of the generates and sources. If the generates are old, the task will be executed.
 
 	// Get the max time of the generates.
 	generateMaxTime, err := getMaxTime(generates...)
 	if err != nil || generateMaxTime.IsZero() {
-		return false, nil
+		return false, touchMarker()
 	}
 
 	// Check if any of the source files is newer than the max time of the generates.
 	shouldUpdate, err := anyFileNewerThan(sources, generateMaxTime)
 	if err != nil {
-		return false, nil
+		return false, touchMarker()
 	}
 
 	upToDate := !shouldUpdate && generatesExist
-
-	// Modify the metadata of the file to the the current time. Only when the
-	// task is going to run: a check that ends in "up to date" must not move
-	// the marker past sources that were edited since the last run.
-	if !checker.dry && !upToDate {
-		if err := os.Chtimes(timestampFile, taskTime, taskTime); err != nil {
+	if !upToDate {
+		if err := touchMarker(); err != nil {
 			return false, err
 		}
 	}
